@@ -108,317 +108,324 @@ def run(index, rep, tier):
     sd = index.klass(SD)
 
     # ---------------- R05.1 (a) who writes the source fields
-    nwr = 0
-    for fi in list(index.functions.values()):
-        for w in writes_in(fi.node):
-            if w.attr not in SOURCE_FIELDS:
-                continue
-            base_self = isinstance(w.base, ast.Name) and w.base.id == "self"
-            if base_self and fi.cls is not None and not index.is_subclass(fi.cls, SD):
-                # a different class with a same-named field of its own
-                own = any(w2.attr == w.attr and w2.kind == "store" for m in fi.cls.methods.values() if m.name == "__init__" for w2 in writes_in(m.node))
-                if own:
+    with rep.section("R05.1 (a) who writes the source fields"):
+        nwr = 0
+        for fi in list(index.functions.values()):
+            for w in writes_in(fi.node):
+                if w.attr not in SOURCE_FIELDS:
                     continue
-            nwr += 1
-            ok = base_self and fi.cls is not None and index.is_subclass(fi.cls, SD) and fi.name in SOURCE_WRITERS
-            rep.check(ok, "R05.1", fi.qualname, "write to %s.%s" % (w.base_text, w.attr), fn_where(fi, w.stmt),
-                      "%s writes %s.%s" % (fi.qualname, w.base_text, w.attr),
-                      "%s modifies the split distribution's source field `%s` outside the counting/merging functions %s; the frequency/summary caches cannot know about it"
-                      % (fi.qualname, w.attr, sorted(SOURCE_WRITERS)))
-    rep.floor("R05.1", "writes to SplitDistribution source fields", 12, nwr)
-    # (b) each writer advances the stamp source or clears the derived fields
-    for name in ("count_splits_on_tree", "update"):
-        fi = index.function(SD + "." + name)
-        adv = [n for n in walk_no_nested(fi.node) if isinstance(n, ast.AugAssign) and isinstance(n.op, ast.Add)
-               and is_self_attr(n.target, "total_trees_counted")]
-        cfg = cfg_of(fi)
-        ok = False
-        if adv:
-            advn = [x for a in adv for x in stmt_nodes(cfg, a)]
-            ids = {x.id for x in advn}
-            # every normal path passes the increment
-            ok, _ = cfg.must_pass(cfg.entry, lambda n: n.id in ids)
-        rep.check(ok, "R05.1", fi.qualname, "total_trees_counted advanced", fn_where(fi),
-                  "%s advances total_trees_counted on every path (invalidates the stamped caches)" % name,
-                  "%s changes the split counts without advancing total_trees_counted on every path: cached frequencies stay stale" % fi.qualname)
-    # (c) getters
-    for field, (stamp, getter, calc) in DERIVED.items():
-        g = index.function(SD + "." + getter)
-        cfg = cfg_of(g)
-        rets = [n for n in cfg.nodes if n.kind == "stmt" and isinstance(n.ast, ast.Return)]
-        is_calc = lambda n: any(call_name(c) == calc for c in node_calls(n))
+                base_self = isinstance(w.base, ast.Name) and w.base.id == "self"
+                if base_self and fi.cls is not None and not index.is_subclass(fi.cls, SD):
+                    # a different class with a same-named field of its own
+                    own = any(w2.attr == w.attr and w2.kind == "store" for m in fi.cls.methods.values() if m.name == "__init__" for w2 in writes_in(m.node))
+                    if own:
+                        continue
+                nwr += 1
+                ok = base_self and fi.cls is not None and index.is_subclass(fi.cls, SD) and fi.name in SOURCE_WRITERS
+                rep.check(ok, "R05.1", fi.qualname, "write to %s.%s" % (w.base_text, w.attr), fn_where(fi, w.stmt),
+                          "%s writes %s.%s" % (fi.qualname, w.base_text, w.attr),
+                          "%s modifies the split distribution's source field `%s` outside the counting/merging functions %s; the frequency/summary caches cannot know about it"
+                          % (fi.qualname, w.attr, sorted(SOURCE_WRITERS)))
+        rep.floor("R05.1", "writes to SplitDistribution source fields", 12, nwr)
+        # (b) each writer advances the stamp source or clears the derived fields
+        for name in ("count_splits_on_tree", "update"):
+            fi = index.function(SD + "." + name)
+            adv = [n for n in walk_no_nested(fi.node) if isinstance(n, ast.AugAssign) and isinstance(n.op, ast.Add)
+                   and is_self_attr(n.target, "total_trees_counted")]
+            cfg = cfg_of(fi)
+            ok = False
+            if adv:
+                advn = [x for a in adv for x in stmt_nodes(cfg, a)]
+                ids = {x.id for x in advn}
+                # every normal path passes the increment
+                ok, _ = cfg.must_pass(cfg.entry, lambda n: n.id in ids)
+            rep.check(ok, "R05.1", fi.qualname, "total_trees_counted advanced", fn_where(fi),
+                      "%s advances total_trees_counted on every path (invalidates the stamped caches)" % name,
+                      "%s changes the split counts without advancing total_trees_counted on every path: cached frequencies stay stale" % fi.qualname)
+        # (c) getters
+        for field, (stamp, getter, calc) in DERIVED.items():
+            g = index.function(SD + "." + getter)
+            cfg = cfg_of(g)
+            rets = [n for n in cfg.nodes if n.kind == "stmt" and isinstance(n.ast, ast.Return)]
+            is_calc = lambda n: any(call_name(c) == calc for c in node_calls(n))
 
-        def is_stamp_test(n, stamp=stamp):
-            if n.kind != "test":
-                return False
-            cp = compare_parts(n.ast)
-            if not cp or cp[1] not in ("NotEq", "Lt", "Eq"):
-                return False
-            txt = {norm(cp[0]), norm(cp[2])}
-            return txt == {"self." + stamp, "self.total_trees_counted"}
-
-        def is_none_test(n, field=field):
-            if n.kind != "test":
-                return False
-            cp = compare_parts(n.ast)
-            return bool(cp) and cp[1] in ("Is", "Eq") and norm(cp[0]) == "self." + field and is_none(cp[2])
-        reach = cfg.reach([cfg.entry], avoid=lambda n: is_calc(n) or is_stamp_test(n), follow_exc=False)
-        ok1 = not any(r in reach for r in rets)
-        reach = cfg.reach([cfg.entry], avoid=lambda n: is_calc(n) or is_none_test(n), follow_exc=False)
-        ok2 = not any(r in reach for r in rets)
-        # stamp test polarity: calc must be on the '!=' true edge
-        ok3 = True
-        for n in cfg.nodes:
-            if is_stamp_test(n):
+            def is_stamp_test(n, stamp=stamp):
+                if n.kind != "test":
+                    return False
                 cp = compare_parts(n.ast)
-                lab = "t" if cp[1] in ("NotEq", "Lt") else "f"
-                tgt = [t for l, t in n.succ if l == lab]
-                ok3 = ok3 and any(is_calc(x) for x in cfg.reach(tgt, avoid=lambda m: m.kind == "stmt" and isinstance(m.ast, ast.Return), follow_exc=False))
-        rep.check(ok1 and ok2 and ok3, "R05.1", g.qualname, "freshness test before returning self." + field, fn_where(g),
-                  "%s returns self.%s only after `is None or %s != total_trees_counted` -> %s()" % (getter, field, stamp, calc),
-                  "%s can return the cached %s without both the None test and the stamp test (or recalculates on the wrong branch): frequencies/summaries computed before more trees were counted are served" % (g.qualname, field))
-        # direct reads elsewhere
-        allowed = {getter, calc, "__init__", "update", "calc_freqs"}
-        for fi in index.functions.values():
-            if fi.name in allowed and fi.cls is not None and index.is_subclass(fi.cls, SD):
-                continue
-            for a, base, node in attr_reads(fi.node):
-                if a == field:
-                    rep.check(False, "R05.1", fi.qualname, "direct read of " + field, fn_where(fi, node),
-                              "%s reads %s directly" % (fi.qualname, field),
-                              "%s reads the cached table `%s` directly instead of through %s(): it can be None or stale" % (fi.qualname, field, getter))
-    # (d) stamp assignments
-    nst = 0
-    for fi in index.methods_of(SD):
-        for w in writes_in(fi.node):
-            if w.attr in ("_trees_counted_for_freqs", "_trees_counted_for_summaries") and w.kind in ("store", "augstore"):
-                nst += 1
-                v = w.value
-                zero = isinstance(v, ast.Constant) and v.value == 0
-                cur = v is not None and norm(v) == "self.total_trees_counted"
-                rebuilt = False
-                if cur:
-                    # a stamp shared by several tables may only be advanced where ALL of them are rebuilt
-                    fld = [f for f, (s, g, c) in DERIVED.items() if s == w.attr]
-                    rebuilt = all(any(w2.attr == f_ and w2.kind == "store" and not is_none(w2.value) for w2 in writes_in(fi.node)) for f_ in fld)
-                ok = zero or (cur and rebuilt)
-                rep.check(ok, "R05.1", fi.qualname, norm_stmt(w.stmt), fn_where(fi, w.stmt),
-                          "stamp %s assigned %s in %s" % (w.attr, norm(v) if v is not None else "?", fi.name),
-                          "stamp %s is set to `%s` in %s, which did not rebuild the table it stamps: the cache is marked fresh without being recomputed" % (w.attr, norm(v) if v is not None else "?", fi.qualname))
-    rep.floor("R05.1", "stamp assignments", 4, nst)
+                if not cp or cp[1] not in ("NotEq", "Lt", "Eq"):
+                    return False
+                txt = {norm(cp[0]), norm(cp[2])}
+                return txt == {"self." + stamp, "self.total_trees_counted"}
+
+            def is_none_test(n, field=field):
+                if n.kind != "test":
+                    return False
+                cp = compare_parts(n.ast)
+                return bool(cp) and cp[1] in ("Is", "Eq") and norm(cp[0]) == "self." + field and is_none(cp[2])
+            reach = cfg.reach([cfg.entry], avoid=lambda n: is_calc(n) or is_stamp_test(n), follow_exc=False)
+            ok1 = not any(r in reach for r in rets)
+            reach = cfg.reach([cfg.entry], avoid=lambda n: is_calc(n) or is_none_test(n), follow_exc=False)
+            ok2 = not any(r in reach for r in rets)
+            # stamp test polarity: calc must be on the '!=' true edge
+            ok3 = True
+            for n in cfg.nodes:
+                if is_stamp_test(n):
+                    cp = compare_parts(n.ast)
+                    lab = "t" if cp[1] in ("NotEq", "Lt") else "f"
+                    tgt = [t for l, t in n.succ if l == lab]
+                    ok3 = ok3 and any(is_calc(x) for x in cfg.reach(tgt, avoid=lambda m: m.kind == "stmt" and isinstance(m.ast, ast.Return), follow_exc=False))
+            rep.check(ok1 and ok2 and ok3, "R05.1", g.qualname, "freshness test before returning self." + field, fn_where(g),
+                      "%s returns self.%s only after `is None or %s != total_trees_counted` -> %s()" % (getter, field, stamp, calc),
+                      "%s can return the cached %s without both the None test and the stamp test (or recalculates on the wrong branch): frequencies/summaries computed before more trees were counted are served" % (g.qualname, field))
+            # direct reads elsewhere
+            allowed = {getter, calc, "__init__", "update", "calc_freqs"}
+            for fi in index.functions.values():
+                if fi.name in allowed and fi.cls is not None and index.is_subclass(fi.cls, SD):
+                    continue
+                for a, base, node in attr_reads(fi.node):
+                    if a == field:
+                        rep.check(False, "R05.1", fi.qualname, "direct read of " + field, fn_where(fi, node),
+                                  "%s reads %s directly" % (fi.qualname, field),
+                                  "%s reads the cached table `%s` directly instead of through %s(): it can be None or stale" % (fi.qualname, field, getter))
+        # (d) stamp assignments
+        nst = 0
+        for fi in index.methods_of(SD):
+            for w in writes_in(fi.node):
+                if w.attr in ("_trees_counted_for_freqs", "_trees_counted_for_summaries") and w.kind in ("store", "augstore"):
+                    nst += 1
+                    v = w.value
+                    zero = isinstance(v, ast.Constant) and v.value == 0
+                    cur = v is not None and norm(v) == "self.total_trees_counted"
+                    rebuilt = False
+                    if cur:
+                        # a stamp shared by several tables may only be advanced where ALL of them are rebuilt
+                        fld = [f for f, (s, g, c) in DERIVED.items() if s == w.attr]
+                        rebuilt = all(any(w2.attr == f_ and w2.kind == "store" and not is_none(w2.value) for w2 in writes_in(fi.node)) for f_ in fld)
+                    ok = zero or (cur and rebuilt)
+                    rep.check(ok, "R05.1", fi.qualname, norm_stmt(w.stmt), fn_where(fi, w.stmt),
+                              "stamp %s assigned %s in %s" % (w.attr, norm(v) if v is not None else "?", fi.name),
+                              "stamp %s is set to `%s` in %s, which did not rebuild the table it stamps: the cache is marked fresh without being recomputed" % (w.attr, norm(v) if v is not None else "?", fi.qualname))
+        rep.floor("R05.1", "stamp assignments", 4, nst)
 
     # ---------------- R05.2
-    fi = index.function(SD + ".count_splits_on_tree")
-    sw = [n for n in walk_no_nested(fi.node) if isinstance(n, ast.AugAssign) and is_self_attr(n.target, "sum_of_tree_weights")]
-    sc = [n for n in walk_no_nested(fi.node) if isinstance(n, ast.AugAssign) and isinstance(n.target, ast.Subscript)
-          and is_self_attr(n.target.value, "split_counts")]
-    if len(sw) != 1 or len(sc) != 1:
-        raise AnalysisError("R05.2: count_splits_on_tree accumulation statements not found (sum_of_tree_weights: %d, split_counts: %d)" % (len(sw), len(sc)))
-    same = isinstance(sw[0].value, ast.Name) and isinstance(sc[0].value, ast.Name) and sw[0].value.id == sc[0].value.id \
-        and isinstance(sw[0].op, ast.Add) and isinstance(sc[0].op, ast.Add)
-    rep.check(same, "R05.2", fi.qualname, "weights: %s / %s" % (norm_stmt(sw[0]), norm_stmt(sc[0])), fn_where(fi, sc[0]),
-              "count_splits_on_tree adds the same local `%s` to sum_of_tree_weights and to split_counts[split]" % norm(sw[0].value),
-              "the per-tree amount added to split_counts (`%s`) is not the amount added to sum_of_tree_weights (`%s`): frequencies are no longer count/normaliser" % (norm(sc[0].value), norm(sw[0].value)))
-    if same:
-        wname = sw[0].value.id
-        cfg = cfg_of(fi)
-        swn = stmt_nodes(cfg, sw[0])[0]
-        redef = cfg.can_reach(swn, lambda n: n.kind == "stmt" and isinstance(n.ast, (ast.Assign, ast.AugAssign)) and any(
-            isinstance(t, ast.Name) and t.id == wname for t in ast.walk(n.ast) if isinstance(t, ast.Name) and isinstance(t.ctx, ast.Store)))
-        rep.check(redef is None, "R05.2", fi.qualname, "weight local re-assigned between the two uses", fn_where(fi, sw[0]),
-                  "`%s` is not re-assigned after it was added to sum_of_tree_weights" % wname,
-                  "`%s` is re-assigned after being added to sum_of_tree_weights, so split_counts receives a different amount" % wname)
-        wdef_sd = _weight_rule_text(fi, wname)
-        fa = index.function(TA + ".add_tree")
-        tw = [c for c in calls_in(fa.node) if isinstance(c.func, ast.Attribute) and c.func.attr in ("append", "insert")
-              and is_self_attr(c.func.value, "_tree_weights")]
-        if not tw:
-            raise AnalysisError("R05.2: TreeArray.add_tree no longer appends to _tree_weights")
-        wn2 = tw[0].args[-1]
-        wdef_ta = _weight_rule_text(fa, wn2.id) if isinstance(wn2, ast.Name) else None
-        rep.check(wdef_sd is not None and wdef_sd == wdef_ta, "R05.2", fa.qualname, "tree-weight derivation (clone of count_splits_on_tree)", fn_where(fa, tw[0]),
-                  "TreeArray.add_tree derives the per-tree weight exactly as count_splits_on_tree: %s" % wdef_sd,
-                  "TreeArray.add_tree computes the stored tree weight (%s) differently from SplitDistribution.count_splits_on_tree (%s): topology frequencies and split frequencies are normalised inconsistently" % (wdef_ta, wdef_sd))
-    cf = index.function(SD + ".calc_freqs")
-    divs = [n for n in walk_no_nested(cf.node) if isinstance(n, ast.BinOp) and isinstance(n.op, ast.Div)]
-    ok = False
-    for d in divs:
-        if "self.split_counts[" in norm(d.left) and isinstance(d.right, ast.Name):
-            defs = _defs_of(cf.node, d.right.id)
-            ok = any(isinstance(x.value, ast.Call) and norm(x.value.func) == "self.calc_normalization_weight" for x in defs)
-    rep.check(ok, "R05.2", cf.qualname, "frequency = split_counts[s] / calc_normalization_weight()", fn_where(cf),
-              "calc_freqs divides each count by self.calc_normalization_weight()",
-              "calc_freqs no longer divides split_counts[s] by calc_normalization_weight(): frequencies are not weighted fractions of trees")
-    cn = index.function(SD + ".calc_normalization_weight")
-    rets = [norm(n.value) for n in walk_no_nested(cn.node) if isinstance(n, ast.Return) and n.value is not None]
-    ok = any("self.sum_of_tree_weights" in r for r in rets) and all(("sum_of_tree_weights" in r or "total_trees_counted" in r) for r in rets)
-    rep.check(ok, "R05.2", cn.qualname, "normaliser returns", fn_where(cn),
-              "calc_normalization_weight returns sum_of_tree_weights (or total_trees_counted when that is zero): %s" % rets,
-              "calc_normalization_weight returns %s: not the sum of the weights that were added to the counts" % rets)
+    with rep.section("R05.2"):
+        fi = index.function(SD + ".count_splits_on_tree")
+        sw = [n for n in walk_no_nested(fi.node) if isinstance(n, ast.AugAssign) and is_self_attr(n.target, "sum_of_tree_weights")]
+        sc = [n for n in walk_no_nested(fi.node) if isinstance(n, ast.AugAssign) and isinstance(n.target, ast.Subscript)
+              and is_self_attr(n.target.value, "split_counts")]
+        if len(sw) != 1 or len(sc) != 1:
+            raise AnalysisError("R05.2: count_splits_on_tree accumulation statements not found (sum_of_tree_weights: %d, split_counts: %d)" % (len(sw), len(sc)))
+        same = isinstance(sw[0].value, ast.Name) and isinstance(sc[0].value, ast.Name) and sw[0].value.id == sc[0].value.id \
+            and isinstance(sw[0].op, ast.Add) and isinstance(sc[0].op, ast.Add)
+        rep.check(same, "R05.2", fi.qualname, "weights: %s / %s" % (norm_stmt(sw[0]), norm_stmt(sc[0])), fn_where(fi, sc[0]),
+                  "count_splits_on_tree adds the same local `%s` to sum_of_tree_weights and to split_counts[split]" % norm(sw[0].value),
+                  "the per-tree amount added to split_counts (`%s`) is not the amount added to sum_of_tree_weights (`%s`): frequencies are no longer count/normaliser" % (norm(sc[0].value), norm(sw[0].value)))
+        if same:
+            wname = sw[0].value.id
+            cfg = cfg_of(fi)
+            swn = stmt_nodes(cfg, sw[0])[0]
+            redef = cfg.can_reach(swn, lambda n: n.kind == "stmt" and isinstance(n.ast, (ast.Assign, ast.AugAssign)) and any(
+                isinstance(t, ast.Name) and t.id == wname for t in ast.walk(n.ast) if isinstance(t, ast.Name) and isinstance(t.ctx, ast.Store)))
+            rep.check(redef is None, "R05.2", fi.qualname, "weight local re-assigned between the two uses", fn_where(fi, sw[0]),
+                      "`%s` is not re-assigned after it was added to sum_of_tree_weights" % wname,
+                      "`%s` is re-assigned after being added to sum_of_tree_weights, so split_counts receives a different amount" % wname)
+            wdef_sd = _weight_rule_text(fi, wname)
+            fa = index.function(TA + ".add_tree")
+            tw = [c for c in calls_in(fa.node) if isinstance(c.func, ast.Attribute) and c.func.attr in ("append", "insert")
+                  and is_self_attr(c.func.value, "_tree_weights")]
+            if not tw:
+                raise AnalysisError("R05.2: TreeArray.add_tree no longer appends to _tree_weights")
+            wn2 = tw[0].args[-1]
+            wdef_ta = _weight_rule_text(fa, wn2.id) if isinstance(wn2, ast.Name) else None
+            rep.check(wdef_sd is not None and wdef_sd == wdef_ta, "R05.2", fa.qualname, "tree-weight derivation (clone of count_splits_on_tree)", fn_where(fa, tw[0]),
+                      "TreeArray.add_tree derives the per-tree weight exactly as count_splits_on_tree: %s" % wdef_sd,
+                      "TreeArray.add_tree computes the stored tree weight (%s) differently from SplitDistribution.count_splits_on_tree (%s): topology frequencies and split frequencies are normalised inconsistently" % (wdef_ta, wdef_sd))
+        cf = index.function(SD + ".calc_freqs")
+        divs = [n for n in walk_no_nested(cf.node) if isinstance(n, ast.BinOp) and isinstance(n.op, ast.Div)]
+        ok = False
+        for d in divs:
+            if "self.split_counts[" in norm(d.left) and isinstance(d.right, ast.Name):
+                defs = _defs_of(cf.node, d.right.id)
+                ok = any(isinstance(x.value, ast.Call) and norm(x.value.func) == "self.calc_normalization_weight" for x in defs)
+        rep.check(ok, "R05.2", cf.qualname, "frequency = split_counts[s] / calc_normalization_weight()", fn_where(cf),
+                  "calc_freqs divides each count by self.calc_normalization_weight()",
+                  "calc_freqs no longer divides split_counts[s] by calc_normalization_weight(): frequencies are not weighted fractions of trees")
+        cn = index.function(SD + ".calc_normalization_weight")
+        rets = [norm(n.value) for n in walk_no_nested(cn.node) if isinstance(n, ast.Return) and n.value is not None]
+        ok = any("self.sum_of_tree_weights" in r for r in rets) and all(("sum_of_tree_weights" in r or "total_trees_counted" in r) for r in rets)
+        rep.check(ok, "R05.2", cn.qualname, "normaliser returns", fn_where(cn),
+                  "calc_normalization_weight returns sum_of_tree_weights (or total_trees_counted when that is zero): %s" % rets,
+                  "calc_normalization_weight returns %s: not the sum of the weights that were added to the counts" % rets)
 
     # ---------------- R05.3
-    fi = index.function(SD + ".consensus_tree")
-    gte = None
-    for n in walk_no_nested(fi.node):
-        cp = compare_parts(n) if isinstance(n, ast.Compare) else None
-        if cp and isinstance(cp[2], ast.Name) and cp[2].id == "min_freq" and isinstance(cp[0], ast.Name):
-            gte = (n, cp)
-        elif cp and isinstance(cp[0], ast.Name) and cp[0].id == "min_freq" and isinstance(cp[2], ast.Name):
-            flipped = {"Lt": "Gt", "LtE": "GtE", "Gt": "Lt", "GtE": "LtE"}.get(cp[1], cp[1])
-            gte = (n, (cp[2], flipped, cp[0]))
-    if gte is None:
-        raise AnalysisError("R05.3: threshold comparison against min_freq not found in consensus_tree")
-    rep.check(gte[1][1] == "GtE", "R05.3", fi.qualname, "threshold comparison: " + norm(gte[0]), fn_where(fi, gte[0]),
-              "consensus_tree admits a split when `%s`" % norm(gte[0]),
-              "consensus_tree admits splits with `%s`; the property requires every split whose frequency REACHES the threshold (>=)" % norm(gte[0]))
-    rule_sort_order(index, rep, "R05.3")
-    fc = index.function(SD + ".collapse_edges_with_less_than_minimum_support")
-    cmpn = [n for n in walk_no_nested(fc.node) if isinstance(n, ast.Compare) and any(isinstance(x, ast.Name) and x.id == "min_freq" for x in ast.walk(n))]
-    if not cmpn:
-        raise AnalysisError("R05.3: min_freq comparison not found in collapse_edges_with_less_than_minimum_support")
-    for n in cmpn:
-        cp = compare_parts(n)
-        ok = bool(cp) and ((cp[1] == "Lt" and norm(cp[2]) == "min_freq") or (cp[1] == "Gt" and norm(cp[0]) == "min_freq"))
-        rep.check(ok, "R05.3", fc.qualname, "collapse comparison: " + norm(n), fn_where(fc, n),
-                  "collapse removes an edge when `%s`" % norm(n),
-                  "edges are collapsed when `%s`; only edges whose split frequency is strictly BELOW the threshold may go" % norm(n))
+    with rep.section("R05.3"):
+        fi = index.function(SD + ".consensus_tree")
+        gte = None
+        for n in walk_no_nested(fi.node):
+            cp = compare_parts(n) if isinstance(n, ast.Compare) else None
+            if cp and isinstance(cp[2], ast.Name) and cp[2].id == "min_freq" and isinstance(cp[0], ast.Name):
+                gte = (n, cp)
+            elif cp and isinstance(cp[0], ast.Name) and cp[0].id == "min_freq" and isinstance(cp[2], ast.Name):
+                flipped = {"Lt": "Gt", "LtE": "GtE", "Gt": "Lt", "GtE": "LtE"}.get(cp[1], cp[1])
+                gte = (n, (cp[2], flipped, cp[0]))
+        if gte is None:
+            raise AnalysisError("R05.3: threshold comparison against min_freq not found in consensus_tree")
+        rep.check(gte[1][1] == "GtE", "R05.3", fi.qualname, "threshold comparison: " + norm(gte[0]), fn_where(fi, gte[0]),
+                  "consensus_tree admits a split when `%s`" % norm(gte[0]),
+                  "consensus_tree admits splits with `%s`; the property requires every split whose frequency REACHES the threshold (>=)" % norm(gte[0]))
+        rule_sort_order(index, rep, "R05.3")
+        fc = index.function(SD + ".collapse_edges_with_less_than_minimum_support")
+        cmpn = [n for n in walk_no_nested(fc.node) if isinstance(n, ast.Compare) and any(isinstance(x, ast.Name) and x.id == "min_freq" for x in ast.walk(n))]
+        if not cmpn:
+            raise AnalysisError("R05.3: min_freq comparison not found in collapse_edges_with_less_than_minimum_support")
+        for n in cmpn:
+            cp = compare_parts(n)
+            ok = bool(cp) and ((cp[1] == "Lt" and norm(cp[2]) == "min_freq") or (cp[1] == "Gt" and norm(cp[0]) == "min_freq"))
+            rep.check(ok, "R05.3", fc.qualname, "collapse comparison: " + norm(n), fn_where(fc, n),
+                      "collapse removes an edge when `%s`" % norm(n),
+                      "edges are collapsed when `%s`; only edges whose split frequency is strictly BELOW the threshold may go" % norm(n))
 
     # ---------------- R05.4
-    sites = [
-        (SD + ".consensus_tree", "from_split_bitmasks", "is_rooted", {"is_rooted"}),
-        (TA + ".consensus_tree", "consensus_tree", "is_rooted", {"self.is_rooted_trees", "self._is_rooted_trees"}),
-        (TA + ".restore_tree", "from_split_bitmasks", "is_rooted", {"self._is_rooted_trees", "self.is_rooted_trees"}),
-        (TA + ".topologies", "from_split_bitmasks", "is_rooted", {"self._is_rooted_trees", "self.is_rooted_trees"}),
-    ]
-    for q, callee, kw, accepted in sites:
-        fi = index.function(q)
-        cs = [c for c in calls_in(fi.node) if call_name(c) == callee]
-        if not cs:
-            raise AnalysisError("R05.4: %s no longer calls %s" % (q, callee))
-        for c in cs:
-            v = get_kwarg(c, kw)
-            ok = v is not None and norm(v) in accepted
-            rep.check(ok, "R05.4", fi.qualname, "%s(%s=%s)" % (callee, kw, norm(v) if v is not None else "<missing>"), fn_where(fi, c),
-                      "%s passes %s=%s to %s" % (fi.name, kw, norm(v) if v is not None else "<missing>", callee),
-                      "%s calls %s without forwarding the collection's rooting state (%s=%s): the summary tree does not get the rooting state of the input trees"
-                      % (fi.qualname, callee, kw, norm(v) if v is not None else "<missing>"))
-    # is_rooted defaulting in SD.consensus_tree: only under `is_rooted is None`
-    fi = index.function(SD + ".consensus_tree")
-    for w in walk_no_nested(fi.node):
-        if isinstance(w, ast.Assign) and any(isinstance(t, ast.Name) and t.id == "is_rooted" for t in w.targets):
-            cfg = cfg_of(fi)
-            wn = stmt_nodes(cfg, w)[0]
+    with rep.section("R05.4"):
+        sites = [
+            (SD + ".consensus_tree", "from_split_bitmasks", "is_rooted", {"is_rooted"}),
+            (TA + ".consensus_tree", "consensus_tree", "is_rooted", {"self.is_rooted_trees", "self._is_rooted_trees"}),
+            (TA + ".restore_tree", "from_split_bitmasks", "is_rooted", {"self._is_rooted_trees", "self.is_rooted_trees"}),
+            (TA + ".topologies", "from_split_bitmasks", "is_rooted", {"self._is_rooted_trees", "self.is_rooted_trees"}),
+        ]
+        for q, callee, kw, accepted in sites:
+            fi = index.function(q)
+            cs = [c for c in calls_in(fi.node) if call_name(c) == callee]
+            if not cs:
+                raise AnalysisError("R05.4: %s no longer calls %s" % (q, callee))
+            for c in cs:
+                v = get_kwarg(c, kw)
+                ok = v is not None and norm(v) in accepted
+                rep.check(ok, "R05.4", fi.qualname, "%s(%s=%s)" % (callee, kw, norm(v) if v is not None else "<missing>"), fn_where(fi, c),
+                          "%s passes %s=%s to %s" % (fi.name, kw, norm(v) if v is not None else "<missing>", callee),
+                          "%s calls %s without forwarding the collection's rooting state (%s=%s): the summary tree does not get the rooting state of the input trees"
+                          % (fi.qualname, callee, kw, norm(v) if v is not None else "<missing>"))
+        # is_rooted defaulting in SD.consensus_tree: only under `is_rooted is None`
+        fi = index.function(SD + ".consensus_tree")
+        for w in walk_no_nested(fi.node):
+            if isinstance(w, ast.Assign) and any(isinstance(t, ast.Name) and t.id == "is_rooted" for t in w.targets):
+                cfg = cfg_of(fi)
+                wn = stmt_nodes(cfg, w)[0]
 
-            def none_test(n):
-                cp = compare_parts(n.ast) if n.kind == "test" else None
-                return bool(cp) and norm(cp[0]) == "is_rooted" and is_none(cp[2]) and cp[1] in ("Is", "Eq")
-            ok = cfg.dominated_by(wn, none_test)
-            rep.check(ok, "R05.4", fi.qualname, norm_stmt(w), fn_where(fi, w), "is_rooted is only defaulted when the caller passed None",
-                      "consensus_tree overrides the caller's is_rooted (`%s`) outside an `is_rooted is None` test" % norm_stmt(w))
+                def none_test(n):
+                    cp = compare_parts(n.ast) if n.kind == "test" else None
+                    return bool(cp) and norm(cp[0]) == "is_rooted" and is_none(cp[2]) and cp[1] in ("Is", "Eq")
+                ok = cfg.dominated_by(wn, none_test)
+                rep.check(ok, "R05.4", fi.qualname, norm_stmt(w), fn_where(fi, w), "is_rooted is only defaulted when the caller passed None",
+                          "consensus_tree overrides the caller's is_rooted (`%s`) outside an `is_rooted is None` test" % norm_stmt(w))
 
     # ---------------- R05.5
-    pairs = [
-        (TA + ".maximum_product_of_split_support_tree", "calculate_log_product_of_split_supports"),
-        (TA + ".maximum_sum_of_split_support_tree", "calculate_sum_of_split_supports"),
-        (TL + ".maximum_product_of_split_support_tree", "calculate_log_product_of_split_supports"),
-        (TL + ".maximum_sum_of_split_support_tree", "calculate_sum_of_split_supports"),
-    ]
-    for q, calc in pairs:
-        fi = index.function(q)
-        asg = [n for n in walk_no_nested(fi.node) if isinstance(n, ast.Assign) and isinstance(n.value, ast.Call)
-               and call_name(n.value) and call_name(n.value).startswith("calculate_")]
-        ok = len(asg) == 1 and call_name(asg[0].value) == calc and isinstance(asg[0].targets[0], ast.Tuple) and len(asg[0].targets[0].elts) == 2
-        rep.check(ok, "R05.5", fi.qualname, "score source", fn_where(fi), "%s scores with %s" % (fi.name, calc),
-                  "%s does not take (scores, index) from %s" % (fi.qualname, calc))
-        if not ok:
-            continue
-        sname, iname = [norm(e) for e in asg[0].targets[0].elts]
-        picks = []
-        for n in walk_no_nested(fi.node):
-            if isinstance(n, ast.Call) and call_name(n) == "restore_tree":
-                v = get_kwarg(n, "index") or (n.args[0] if n.args else None)
-                picks.append(norm(v) if v is not None else None)
-            elif isinstance(n, ast.Subscript) and norm(n.value) == "self":
-                picks.append(norm(n.slice))
-        ok = picks == [iname]
-        rep.check(ok, "R05.5", fi.qualname, "tree picked at %s" % picks, fn_where(fi), "%s returns the tree at the maximising index `%s`" % (fi.name, iname),
-                  "%s picks the tree with %s, not with the index `%s` that %s reported" % (fi.qualname, picks, iname, calc))
-        scs = [norm(n.slice) for n in walk_no_nested(fi.node) if isinstance(n, ast.Subscript) and norm(n.value) == sname]
-        ok = bool(scs) and all(s == iname for s in scs)
-        rep.check(ok, "R05.5", fi.qualname, "score annotation %s[%s]" % (sname, scs), fn_where(fi), "%s annotates the tree with %s[%s]" % (fi.name, sname, iname),
-                  "%s annotates the tree with %s%s rather than the score at the maximising index" % (fi.qualname, sname, scs))
-    for calc in ("calculate_log_product_of_split_supports", "calculate_sum_of_split_supports"):
-        fi = index.function(TA + "." + calc)
-        ret = [n for n in walk_no_nested(fi.node) if isinstance(n, ast.Return)]
-        svar = norm(ret[0].value.elts[0]) if ret and isinstance(ret[0].value, ast.Tuple) and ret[0].value.elts else "scores"
-        apps = [c for c in calls_in(fi.node) if isinstance(c.func, ast.Attribute) and c.func.attr == "append" and norm(c.func.value) == svar]
-        if len(apps) != 1 or not ret:
-            raise AnalysisError("R05.5: %s shape not recognised" % calc)
-        val = norm(apps[0].args[0])
-        cmps = [n for n in walk_no_nested(fi.node) if isinstance(n, ast.Compare) and val in (norm(n.left), norm(n.comparators[0])) and len(n.ops) == 1
-                and not is_none(n.comparators[0])]
-        ok = False
-        msg = "no comparison of the appended score with the running maximum"
-        for n in cmps:
-            l, op, r = norm(n.left), type(n.ops[0]).__name__, norm(n.comparators[0])
-            if (r == val and op in ("Lt",)) or (l == val and op in ("Gt",)):
-                other = l if r == val else r
-                ass = [a for a in walk_no_nested(fi.node) if isinstance(a, ast.Assign) and norm(a.targets[0]) == other and norm(a.value) == val]
-                ok = bool(ass)
-                msg = "running maximum `%s` is not updated with the compared score" % other
-            else:
-                msg = "comparison `%s` does not select the MAXIMUM score (first maximum on ties)" % norm(n)
-        rep.check(ok, "R05.5", fi.qualname, "maximum tracking", fn_where(fi, cmps[0] if cmps else None),
-                  "%s tracks the first maximum of the score it appends (`%s`)" % (calc, val), "%s: %s" % (fi.qualname, msg))
-        zips = [c for c in calls_in(fi.node) if call_name(c) == "zip"]
-        ok = any({norm(a) for a in z.args} == {"self._tree_leafset_bitmasks", "self._tree_split_bitmasks"} for z in zips)
-        rep.check(ok, "R05.5", fi.qualname, "per-tree iteration", fn_where(fi), "%s walks the per-tree leafset and split lists in step" % calc,
-                  "%s no longer iterates zip(_tree_leafset_bitmasks, _tree_split_bitmasks)" % fi.qualname)
-        sf = [n for n in walk_no_nested(fi.node) if isinstance(n, ast.Assign) and "split_frequencies" in norm(n.value) and isinstance(n.targets[0], ast.Name)]
-        ok = bool(sf) and norm(sf[0].value) in ("self._split_distribution.split_frequencies", "self.split_distribution.split_frequencies",
-                                                "self._split_distribution._get_split_frequencies()")
-        rep.check(ok, "R05.5", fi.qualname, "frequency table source", fn_where(fi), "%s reads the collection's own (fresh) frequency table" % calc,
-                  "%s takes split frequencies from `%s`, not from its own distribution's freshness-checked getter" % (fi.qualname, norm(sf[0].value) if sf else None))
+    with rep.section("R05.5"):
+        pairs = [
+            (TA + ".maximum_product_of_split_support_tree", "calculate_log_product_of_split_supports"),
+            (TA + ".maximum_sum_of_split_support_tree", "calculate_sum_of_split_supports"),
+            (TL + ".maximum_product_of_split_support_tree", "calculate_log_product_of_split_supports"),
+            (TL + ".maximum_sum_of_split_support_tree", "calculate_sum_of_split_supports"),
+        ]
+        for q, calc in pairs:
+            fi = index.function(q)
+            asg = [n for n in walk_no_nested(fi.node) if isinstance(n, ast.Assign) and isinstance(n.value, ast.Call)
+                   and call_name(n.value) and call_name(n.value).startswith("calculate_")]
+            ok = len(asg) == 1 and call_name(asg[0].value) == calc and isinstance(asg[0].targets[0], ast.Tuple) and len(asg[0].targets[0].elts) == 2
+            rep.check(ok, "R05.5", fi.qualname, "score source", fn_where(fi), "%s scores with %s" % (fi.name, calc),
+                      "%s does not take (scores, index) from %s" % (fi.qualname, calc))
+            if not ok:
+                continue
+            sname, iname = [norm(e) for e in asg[0].targets[0].elts]
+            picks = []
+            for n in walk_no_nested(fi.node):
+                if isinstance(n, ast.Call) and call_name(n) == "restore_tree":
+                    v = get_kwarg(n, "index") or (n.args[0] if n.args else None)
+                    picks.append(norm(v) if v is not None else None)
+                elif isinstance(n, ast.Subscript) and norm(n.value) == "self":
+                    picks.append(norm(n.slice))
+            ok = picks == [iname]
+            rep.check(ok, "R05.5", fi.qualname, "tree picked at %s" % picks, fn_where(fi), "%s returns the tree at the maximising index `%s`" % (fi.name, iname),
+                      "%s picks the tree with %s, not with the index `%s` that %s reported" % (fi.qualname, picks, iname, calc))
+            scs = [norm(n.slice) for n in walk_no_nested(fi.node) if isinstance(n, ast.Subscript) and norm(n.value) == sname]
+            ok = bool(scs) and all(s == iname for s in scs)
+            rep.check(ok, "R05.5", fi.qualname, "score annotation %s[%s]" % (sname, scs), fn_where(fi), "%s annotates the tree with %s[%s]" % (fi.name, sname, iname),
+                      "%s annotates the tree with %s%s rather than the score at the maximising index" % (fi.qualname, sname, scs))
+        for calc in ("calculate_log_product_of_split_supports", "calculate_sum_of_split_supports"):
+            fi = index.function(TA + "." + calc)
+            ret = [n for n in walk_no_nested(fi.node) if isinstance(n, ast.Return)]
+            svar = norm(ret[0].value.elts[0]) if ret and isinstance(ret[0].value, ast.Tuple) and ret[0].value.elts else "scores"
+            apps = [c for c in calls_in(fi.node) if isinstance(c.func, ast.Attribute) and c.func.attr == "append" and norm(c.func.value) == svar]
+            if len(apps) != 1 or not ret:
+                raise AnalysisError("R05.5: %s shape not recognised" % calc)
+            val = norm(apps[0].args[0])
+            cmps = [n for n in walk_no_nested(fi.node) if isinstance(n, ast.Compare) and val in (norm(n.left), norm(n.comparators[0])) and len(n.ops) == 1
+                    and not is_none(n.comparators[0])]
+            ok = False
+            msg = "no comparison of the appended score with the running maximum"
+            for n in cmps:
+                l, op, r = norm(n.left), type(n.ops[0]).__name__, norm(n.comparators[0])
+                if (r == val and op in ("Lt",)) or (l == val and op in ("Gt",)):
+                    other = l if r == val else r
+                    ass = [a for a in walk_no_nested(fi.node) if isinstance(a, ast.Assign) and norm(a.targets[0]) == other and norm(a.value) == val]
+                    ok = bool(ass)
+                    msg = "running maximum `%s` is not updated with the compared score" % other
+                else:
+                    msg = "comparison `%s` does not select the MAXIMUM score (first maximum on ties)" % norm(n)
+            rep.check(ok, "R05.5", fi.qualname, "maximum tracking", fn_where(fi, cmps[0] if cmps else None),
+                      "%s tracks the first maximum of the score it appends (`%s`)" % (calc, val), "%s: %s" % (fi.qualname, msg))
+            zips = [c for c in calls_in(fi.node) if call_name(c) == "zip"]
+            ok = any({norm(a) for a in z.args} == {"self._tree_leafset_bitmasks", "self._tree_split_bitmasks"} for z in zips)
+            rep.check(ok, "R05.5", fi.qualname, "per-tree iteration", fn_where(fi), "%s walks the per-tree leafset and split lists in step" % calc,
+                      "%s no longer iterates zip(_tree_leafset_bitmasks, _tree_split_bitmasks)" % fi.qualname)
+            sf = [n for n in walk_no_nested(fi.node) if isinstance(n, ast.Assign) and "split_frequencies" in norm(n.value) and isinstance(n.targets[0], ast.Name)]
+            ok = bool(sf) and norm(sf[0].value) in ("self._split_distribution.split_frequencies", "self.split_distribution.split_frequencies",
+                                                    "self._split_distribution._get_split_frequencies()")
+            rep.check(ok, "R05.5", fi.qualname, "frequency table source", fn_where(fi), "%s reads the collection's own (fresh) frequency table" % calc,
+                      "%s takes split frequencies from `%s`, not from its own distribution's freshness-checked getter" % (fi.qualname, norm(sf[0].value) if sf else None))
 
     # ---------------- R05.6 / R05.8
-    rep.rule("R05.6", "counting/summarising functions re-encode the tree before reading its bipartitions unless told not to (freshness, shared engine with R04.1)")
-    from . import c04
-    nf = c04.freshness_everywhere(index, rep, "R05.6", [TCM, "dendropy.calculate.treesum"])
-    rep.floor("R05.6", "functions using the freshness flag in the tree-collection modules", 15, nf)
-    rep.rule("R05.8", "each split of a tree is counted once: the encode call of the counting functions keeps unifurcation suppression on (two edges around an out-degree-one node carry the same split)")
-    nenc = 0
-    for q in (SD + ".count_splits_on_tree", SD + ".split_support_iter", TCM + ".SplitDistributionSummarizer.summarize_splits_on_tree", SD + ".collapse_edges_with_less_than_minimum_support"):
-        fi = index.function(q)
-        for c in calls_in(fi.node):
-            if call_name(c) in ("encode_bipartitions", "update_bipartitions"):
-                nenc += 1
-                v = get_kwarg(c, "suppress_unifurcations")
-                ok = v is None or (isinstance(v, ast.Constant) and v.value is True)
-                rep.check(ok, "R05.8", fi.qualname, "encode with suppress_unifurcations=%s" % (norm(v) if v is not None else "default"), fn_where(fi, c), "%s encodes with unifurcation suppression on" % fi.name,
-                          "%s encodes the tree with suppress_unifurcations=%s: both edges around an out-degree-one node stay in the encoding with the same split, so that split is counted twice for one tree and its frequency exceeds the fraction of trees containing it" % (fi.qualname, norm(v)))
-    rep.floor("R05.8", "encode calls in the counting functions", 4, nenc)
+    with rep.section("R05.6 / R05.8"):
+        rep.rule("R05.6", "counting/summarising functions re-encode the tree before reading its bipartitions unless told not to (freshness, shared engine with R04.1)")
+        from . import c04
+        nf = c04.freshness_everywhere(index, rep, "R05.6", [TCM, "dendropy.calculate.treesum"])
+        rep.floor("R05.6", "functions using the freshness flag in the tree-collection modules", 15, nf)
+        rep.rule("R05.8", "each split of a tree is counted once: the encode call of the counting functions keeps unifurcation suppression on (two edges around an out-degree-one node carry the same split)")
+        nenc = 0
+        for q in (SD + ".count_splits_on_tree", SD + ".split_support_iter", TCM + ".SplitDistributionSummarizer.summarize_splits_on_tree", SD + ".collapse_edges_with_less_than_minimum_support"):
+            fi = index.function(q)
+            for c in calls_in(fi.node):
+                if call_name(c) in ("encode_bipartitions", "update_bipartitions"):
+                    nenc += 1
+                    v = get_kwarg(c, "suppress_unifurcations")
+                    ok = v is None or (isinstance(v, ast.Constant) and v.value is True)
+                    rep.check(ok, "R05.8", fi.qualname, "encode with suppress_unifurcations=%s" % (norm(v) if v is not None else "default"), fn_where(fi, c), "%s encodes with unifurcation suppression on" % fi.name,
+                              "%s encodes the tree with suppress_unifurcations=%s: both edges around an out-degree-one node stay in the encoding with the same split, so that split is counted twice for one tree and its frequency exceeds the fraction of trees containing it" % (fi.qualname, norm(v)))
+        rep.floor("R05.8", "encode calls in the counting functions", 4, nenc)
 
     # ---------------- R05.7
-    st = index.function("dendropy.calculate.statistics.summarize")
-    produced = set()
-    srets = [norm(n.value) for n in walk_no_nested(st.node) if isinstance(n, ast.Return) and n.value is not None]
-    svar = srets[-1] if srets else "summary"
-    for n in walk_no_nested(st.node):
-        if isinstance(n, ast.Subscript) and isinstance(n.ctx, ast.Store) and norm(n.value) == svar and isinstance(n.slice, ast.Constant):
-            produced.add(n.slice.value)
-    rep.floor("R05.7", "keys produced by statistics.summarize", 5, len(produced))
-    names = sd.class_attrs.get("SUMMARY_STATS_FIELDNAMES")
-    if names is None or not isinstance(names, (ast.Tuple, ast.List)):
-        raise AnalysisError("R05.7: SplitDistribution.SUMMARY_STATS_FIELDNAMES not a literal tuple")
-    used = [(e.value, sd.node) for e in names.elts if isinstance(e, ast.Constant)]
-    summ = index.function(TCM + ".SplitDistributionSummarizer.summarize_splits_on_tree")
-    for n in walk_no_nested(summ.node):
-        if isinstance(n, ast.Subscript) and isinstance(n.slice, ast.Constant) and isinstance(n.slice.value, str) and "summaries" in norm(n.value):
-            used.append((n.slice.value, n))
-    for k, node in used:
-        rep.check(k in produced, "R05.7", summ.qualname, "summary key %r" % k, fn_where(summ, node if hasattr(node, "lineno") else None),
-                  "summary field %r is produced by statistics.summarize" % k,
-                  "the summarizer looks up summary field %r, which statistics.summarize never produces (it produces %s): that summary silently falls back to the no-data value" % (k, sorted(produced)))
+    with rep.section("R05.7"):
+        st = index.function("dendropy.calculate.statistics.summarize")
+        produced = set()
+        srets = [norm(n.value) for n in walk_no_nested(st.node) if isinstance(n, ast.Return) and n.value is not None]
+        svar = srets[-1] if srets else "summary"
+        for n in walk_no_nested(st.node):
+            if isinstance(n, ast.Subscript) and isinstance(n.ctx, ast.Store) and norm(n.value) == svar and isinstance(n.slice, ast.Constant):
+                produced.add(n.slice.value)
+        rep.floor("R05.7", "keys produced by statistics.summarize", 5, len(produced))
+        names = sd.class_attrs.get("SUMMARY_STATS_FIELDNAMES")
+        if names is None or not isinstance(names, (ast.Tuple, ast.List)):
+            raise AnalysisError("R05.7: SplitDistribution.SUMMARY_STATS_FIELDNAMES not a literal tuple")
+        used = [(e.value, sd.node) for e in names.elts if isinstance(e, ast.Constant)]
+        summ = index.function(TCM + ".SplitDistributionSummarizer.summarize_splits_on_tree")
+        for n in walk_no_nested(summ.node):
+            if isinstance(n, ast.Subscript) and isinstance(n.slice, ast.Constant) and isinstance(n.slice.value, str) and "summaries" in norm(n.value):
+                used.append((n.slice.value, n))
+        for k, node in used:
+            rep.check(k in produced, "R05.7", summ.qualname, "summary key %r" % k, fn_where(summ, node if hasattr(node, "lineno") else None),
+                      "summary field %r is produced by statistics.summarize" % k,
+                      "the summarizer looks up summary field %r, which statistics.summarize never produces (it produces %s): that summary silently falls back to the no-data value" % (k, sorted(produced)))
 
 
 def _weight_rule_text(fi, name):
